@@ -3,6 +3,6 @@ GROUP = {
     "stub_sets": ["batcher"],
     "kani_args": ["-Z", "stubbing"],
     # modules of the harness crate whose items the generated playback tests need in scope
-    "modules": ["util", "s_send", "s_watch", "k_kernels"],
+    "modules": ["util", "s_send", "s_watch", "k_kernels", "r_exec"],
     "cbmc_args": [],
 }
